@@ -361,12 +361,12 @@ func c02nonfatal(c *an.Ctx) {
 		// every return reachable from the failure edge returns NewClientErr(_, code, _)
 		good := true
 		why := ""
-		q := &an.PathQ{Fn: fn, StartEdges: fail, Sink: func(in ssa.Instruction, _ *an.PathState) bool {
+		q := &an.PathQ{Fn: fn, StartEdges: fail, AllAlias: true, Sink: func(in ssa.Instruction, st *an.PathState) bool {
 			r, ok := in.(*ssa.Return)
 			if !ok {
 				return false
 			}
-			e := errOperand(r)
+			e := errOperandOn(r, st)
 			if e == nil {
 				return true
 			}
